@@ -2,7 +2,9 @@ package main
 
 import (
 	"flag"
+
 	"fmt"
+	"golang.org/x/tools/go/ssa"
 	"os"
 	"path/filepath"
 	"sort"
@@ -36,6 +38,7 @@ func main() {
 	replay := flag.String("replay", "", "re-evaluate only the obligation 'rule|key' (or a replay json file)")
 	selftest := flag.Bool("selftest", false, "run the seeded-mutation self-test of the checker for -prop")
 	dump := flag.Bool("dump", false, "print every obligation")
+	guardsOfFn := flag.String("guards", "", "debug: print call sites and dominating guards of the function key")
 	flag.Parse()
 	if *tier == "" {
 		*tier = os.Getenv("VERIF_TIER")
@@ -75,6 +78,32 @@ func main() {
 	if len(base.Pkgs) < 20 {
 		fmt.Printf("UNDECIDED: only %d module packages loaded\n", len(base.Pkgs))
 		os.Exit(2)
+	}
+	if *guardsOfFn != "" {
+		f := base.FuncByK[*guardsOfFn]
+		if f == nil {
+			fmt.Println("no such function")
+			os.Exit(2)
+		}
+		for _, b := range f.Blocks {
+			for _, ins := range b.Instrs {
+				switch x := ins.(type) {
+				case ssa.CallInstruction:
+					fmt.Printf("%s b%d %T %s  guards=%v\n", base.pos(ins.Pos()), b.Index, ins, render(x.Value()), guardStrings(guardsOf(b)))
+				case *ssa.Store:
+					fmt.Printf("%s b%d store %s <- %s guards=%v\n", base.pos(ins.Pos()), b.Index, render(x.Addr), render(x.Val), guardStrings(guardsOf(b)))
+				case *ssa.MapUpdate:
+					fmt.Printf("%s b%d mapupdate %s[%s] <- %s guards=%v\n", base.pos(ins.Pos()), b.Index, render(x.Map), render(x.Key), render(x.Value), guardStrings(guardsOf(b)))
+				case *ssa.Return:
+					var rs []string
+					for _, r := range x.Results {
+						rs = append(rs, render(r))
+					}
+					fmt.Printf("%s b%d return %v guards=%v\n", base.pos(ins.Pos()), b.Index, rs, guardStrings(guardsOf(b)))
+				}
+			}
+		}
+		os.Exit(0)
 	}
 	for _, id := range ids {
 		pd := registry[id]
